@@ -82,6 +82,20 @@ func genSessParams(g *Gen, maxConn int) SessParams {
 	return p
 }
 
+// share of singleplex sessions among the general c01-sess scenarios (c02-sess: half)
+var c01SingleplexShare = 0.08
+
+// genC02Sess: the general c01-sess scenarios only (no special variants), half of
+// them singleplex - under C02 the question is whether what a stream delivers
+// depends on how its frames arrived, whatever kind of session it belongs to.
+func genC02Sess(g *Gen) any {
+	sc := &C01Scenario{PatKey: g.Rng.Uint64()}
+	old := c01SingleplexShare
+	c01SingleplexShare = 0.5
+	defer func() { c01SingleplexShare = old }()
+	return genC01General(g, sc)
+}
+
 func genC01(g *Gen) any {
 	sc := &C01Scenario{PatKey: g.Rng.Uint64()}
 	if g.Bool(0.08) {
@@ -132,6 +146,10 @@ func genC01(g *Gen) any {
 		}
 		return sc
 	}
+	return genC01General(g, sc)
+}
+
+func genC01General(g *Gen, sc *C01Scenario) any {
 	sc.Sess = genSessParams(g, 8)
 	maxStreams, maxBytes := 6, 30000
 	if g.Tier == "thorough" {
@@ -141,6 +159,13 @@ func genC01(g *Gen) any {
 	if g.Bool(0.1) {
 		ns = g.Int(maxStreams, maxStreams*4) // many small streams
 		maxBytes = 2000
+	}
+	if g.Bool(c01SingleplexShare) {
+		// ck-client with NumConn=0: a session of one connection and one stream
+		// (an ordered stream all the same: read buffers smaller than a frame)
+		sc.Sess.Singleplex, sc.Sess.NConn = true, 1
+		sc.Sess.LateConns, sc.Sess.LateAfter, sc.Sess.Weights = false, nil, nil
+		ns = 1
 	}
 	for i := 0; i < ns; i++ {
 		pl := StreamPlan{SizeClass: g.Int(0, 4), SizeSeed: g.Rng.Uint64(), ReadBuf: g.Pick(1, 7, 512, 3000, 16384, 40000)}
@@ -427,4 +452,17 @@ func init() {
 		},
 	})
 	plans["C01"] = []string{"c01-sess"}
+	register(&Family{
+		Name:     "c02-sess",
+		Count:    func(tier string) int { return map[string]int{"quick": 800, "thorough": 30000}[tier] },
+		Gen:      genC02Sess,
+		New:      func() any { return &C01Scenario{} },
+		Run:      runC01,
+		MaxSteps: 6000000,
+		Policy: func(g *Gen) simsync.PolicyConfig {
+			p := SwarmPolicy(g)
+			p.Stall = 0
+			return p
+		},
+	})
 }
